@@ -37,7 +37,7 @@ struct Case {
 const char *vf_property() { return "C15"; }
 void vf_init() {}
 
-static const char *ADDR[5] = {"/a", "/b/c", "/p2", "/long/address/x", "/q"};
+static const char *ADDR[5] = {"/a", "/b/c", "/p2", "/long/address/x", "/p21"};   // "/p2" is a proper prefix of "/p21" (array elements amp1 / amp10)
 // end-to-end application
 struct App { int pi = 10; float pf = 1; char pc = 5; int pj = 0; static const rtosc::Ports ports; };
 #define rObject App
@@ -63,7 +63,7 @@ Case vf_generate() {
       o.addr = c.e2e ? vf::pickn(4) : vf::pickn(5);
       o.type = c.e2e ? E2E_TYPE[o.addr] : "ifc"[vf::pickn(3)];
       o.oldv = vf::pick<int>(-20, 20);
-      o.newv = c.e2e ? vf::pick<int>(0, 100) : vf::pick<int>(-20, 20);
+      o.newv = c.e2e ? (vf::chance(75) ? vf::pick<int>(0, 100) : vf::pick<int>(-40, 170)) : vf::pick<int>(-20, 20);   // end to end also beyond the ports' ranges (the event carries the clamped value)
     } else if (k < 8) { o.kind = 1; o.dist = vf::oneof<int>({-1, -1, 1, 1, -2, 2, -3, 5, -30, 30, 0}); }
     else { o.kind = 2; o.dist = vf::oneof<int>({0, 1, 2, 3, 10}); }
     c.ops.push_back(o);
@@ -185,11 +185,18 @@ std::string vf_run(const Case &c, vf::Ctx &ctx) {
         // the event comes from the parameter port: old = the stored value, new = the (in-range) incoming one
         uint32_t cur = op.addr == 0 ? (uint32_t)mapp.pi : op.addr == 3 ? (uint32_t)mapp.pj : op.addr == 2 ? (uint32_t)(int)mapp.pc : 0;
         if (op.addr == 1) memcpy(&cur, &mapp.pf, 4);
-        e.oldb = cur; e.newb = bits(op.type, op.newv);
-        if (op.addr == 1) { float f = (float)op.newv / 4.0f; memcpy(&e.newb, &f, 4); }
+        // what is sent, and what the port stores (its declared range: pi 0..100, pc 0..127, pf -100..100, pj none)
+        int64_t sent = op.newv, stored = op.newv;
+        if (op.addr == 2 && sent > 127) sent = stored = 127;   // a 'c' argument is a char: larger numbers are C14's business, not an undo question
+        if (op.addr == 0) stored = std::max<int64_t>(0, std::min<int64_t>(100, stored));
+        if (op.addr == 2) stored = std::max<int64_t>(0, std::min<int64_t>(127, stored));
+        uint32_t sentb = bits(op.type, sent);
+        e.oldb = cur; e.newb = bits(op.type, stored);
+        if (op.addr == 1) { float f = (float)op.newv / 4.0f; memcpy(&e.newb, &f, 4); sentb = e.newb; }
         expect_event = e.oldb != e.newb;
+        if (sent != stored) ctx.count("e2e.set_beyond_the_range");
         size_t before = fwd.recorded;
-        dispatch(refosc::encode(e.addr, std::string(1, op.type), {val(op.type, e.newb)}));
+        dispatch(refosc::encode(e.addr, std::string(1, op.type), {val(op.type, sentb)}));
         app_set(mapp, e.addr, e.type, e.newb);
         if ((fwd.recorded != before) != expect_event) return std::string("parameter port emitted ") + (fwd.recorded != before ? "an" : "no") + " undo event for a set that " + (expect_event ? "changes" : "does not change") + " the value" + W;
       } else {
